@@ -3,6 +3,7 @@ package main
 import (
 	"encoding/json"
 	"fmt"
+	"reflect"
 	"strings"
 
 	jwt "github.com/nats-io/jwt/v2"
@@ -214,37 +215,61 @@ func runC02(c *Ctx) {
 						gc.Subject = sub
 						cl = gc
 					}
-					tok, err := cl.Encode(kp)
-					ok := err == nil
-					c.sum.Evaluations++
-					c.sum.ImplChecks++
-					inp := map[string]interface{}{"direction": "encode", "kind": kind, "subject_role": sr, "signer_role": kr_, "bad_account_server_url": badURL, "success": ok}
-					subRole := sr
-					if sr == "none" || sr == "empty" {
-						subRole = "none"
-					}
-					subOK := true
-					switch kind {
-					case "operator":
-						subOK = subRole == "operator"
-					case "account", "activation":
-						subOK = subRole == "account"
-					case "user":
-						subOK = subRole == "user"
-					}
-					if ok && (!specAllowed(kind, kr_) || !subOK || sub == "") {
-						c.violation("C02: Encode succeeded with a signer or subject of a role not permitted for the kind", inp)
-					}
-					if !ok && tok != "" {
-						c.violation("C02: a failed Encode returned a non-empty token", inp)
-					}
-					extra := !badURL && kr_ != "curve"
-					we.add(fmt.Sprintf("(%s, %s, %s, %s, %s, %s)", kindCoq[kind], coqBool(sub == ""), roleCoq(subRole), roleCoq(kr_), coqBool(extra), coqBool(ok)), inp)
-					distinct[fmt.Sprint("e", kind, sr, kr_, ok)] = true
-					if ok {
-						c.count("encode_ok")
-					} else {
-						c.count("encode_refused")
+					// the gate does not depend on what happened to the object before: fresh, Issuer preset to the signer's
+					// key, a first (possibly refused) attempt with the same key, an earlier Encode by a permitted key
+					for _, hist := range []string{"fresh", "issuer preset to the signer", "second attempt with the same key", "after an Encode by another key"} {
+						if hist != "fresh" {
+							cl = reflect.New(reflect.TypeOf(cl).Elem()).Interface().(jwt.Claims)
+							cl.Claims().Subject = sub
+							if oc, isOp := cl.(*jwt.OperatorClaims); isOp && badURL {
+								oc.AccountServerURL = "no-protocol.example.com"
+							}
+							switch hist {
+							case "issuer preset to the signer":
+								cl.Claims().Issuer = mustPub(kp)
+							case "second attempt with the same key":
+								cl.Encode(kp)
+							case "after an Encode by another key":
+								for _, r := range allRoles {
+									if specAllowed(kind, r) {
+										cl.Encode(kr.by[r].kp)
+										break
+									}
+								}
+							}
+						}
+						tok, err := cl.Encode(kp)
+						ok := err == nil
+						c.sum.Evaluations++
+						c.sum.ImplChecks++
+						inp := map[string]interface{}{"direction": "encode", "kind": kind, "subject_role": sr, "signer_role": kr_, "bad_account_server_url": badURL, "success": ok, "history": hist}
+						subRole := sr
+						if sr == "none" || sr == "empty" {
+							subRole = "none"
+						}
+						subOK := true
+						switch kind {
+						case "operator":
+							subOK = subRole == "operator"
+						case "account", "activation":
+							subOK = subRole == "account"
+						case "user":
+							subOK = subRole == "user"
+						}
+						if ok && (!specAllowed(kind, kr_) || !subOK || sub == "") {
+							c.violation("C02: Encode succeeded with a signer or subject of a role not permitted for the kind", inp)
+						}
+						if !ok && tok != "" {
+							c.violation("C02: a failed Encode returned a non-empty token", inp)
+						}
+						extra := !badURL && kr_ != "curve"
+						we.add(fmt.Sprintf("(%s, %s, %s, %s, %s, %s)", kindCoq[kind], coqBool(sub == ""), roleCoq(subRole), roleCoq(kr_), coqBool(extra), coqBool(ok)), inp)
+						distinct[fmt.Sprint("e", kind, sr, kr_, ok)] = true
+						if ok {
+							c.count("encode_ok")
+						} else {
+							c.count("encode_refused")
+						}
 					}
 				}
 			}
@@ -321,6 +346,35 @@ func runC05(c *Ctx) {
 							if c.sum.Evaluations%1777 == 9 {
 								c.sample(map[string]interface{}{"note": ft.Note, "signed_layout": layout, "accepted": o.Accepted, "generic_accepted": o.Generic})
 							}
+						}
+					}
+				}
+			}
+		}
+	}
+	// every single-bit change of every byte of the accepted type and algorithm spellings (control characters,
+	// punctuation and digits that differ from the expected byte in one bit, the case bit included)
+	for _, field := range []string{"typ", "alg"} {
+		goods := []string{"JWT", "jwt"}
+		if field == "alg" {
+			goods = []string{"ed25519", "ed25519-nkey", "ED25519-NKEY"}
+		}
+		for _, good := range goods {
+			for pos := 0; pos < len(good); pos++ {
+				for bit := uint(0); bit < 7; bit++ {
+					v := []byte(good)
+					v[pos] ^= 1 << bit
+					hm := map[string]interface{}{"typ": "JWT", "alg": "ed25519-nkey"}
+					hm[field] = string(v)
+					hb, _ := json.Marshal(hm)
+					for _, kind := range []string{"account", "generic"} {
+						for _, layout := range []string{"v1", "v2"} {
+							s := kr.by[signerFor[kind]]
+							ft := forge(string(hb), payload(kind, "nats", 2, s.pub, kr.by["account"].pub), layout, s)
+							ft.Note = fmt.Sprintf("%s=%q (bit %d of byte %d of %q changed) kind=%q", field, string(v), bit, pos, good, kind)
+							_, o := processToken(c, w, ft)
+							distinct[fmt.Sprint("bit", field, string(v), kind, layout, o.Accepted, o.Generic)] = true
+							c.count("header_bit_change")
 						}
 					}
 				}
